@@ -190,6 +190,15 @@ func rulesC18(w *World, r *Report) {
 				}
 			}
 			if c, ok := in.(*ssa.Call); ok && c.Common().StaticCallee() == fn(w.Lib, "Whisper.readPointAt") {
+				// slot i read at pointOffsetAt(i) (= offset + i*12, C06.R6), i being the loop counter that also indexes the result
+				if m := regexp.MustCompile(`^whispertool\.ArchiveInfo\.pointOffsetAt\(p0\.header\.archiveInfoList\[p1\], (.+)\)$`).FindStringSubmatch(newExprCtx(w).expr(c.Common().Args[1])); m != nil {
+					if _, _, isIdx := idxOff(m[1]); isIdx {
+						if cv, ok := stripConvert(c.Common().Args[1].(*ssa.Call).Common().Args[1]).(ssa.Value); ok {
+							_ = cv
+						}
+						okOff = true
+					}
+				}
 				if ph, ok := c.Common().Args[1].(*ssa.Phi); ok {
 					hasInit, hasInc := false, false
 					for _, e := range ph.Edges {
@@ -478,7 +487,8 @@ func rulesC19(w *World, r *Report) {
 			okS := false
 			for _, rt := range returnsOf(as) {
 				e := newExprCtx(w).expr(rt.Results[0])
-				if strings.Contains(e, "whispertool.Duration.String(p0.secondsPerPoint)") && strings.Contains(e, "whispertool.Duration.String((p0.secondsPerPoint *:int32 p0.numberOfPoints))") {
+				if strings.Contains(e, "whispertool.Duration.String(p0.secondsPerPoint)") && (strings.Contains(e, "whispertool.Duration.String((p0.secondsPerPoint *:int32 p0.numberOfPoints))") ||
+					(strings.Contains(e, "whispertool.Duration.String(whispertool.ArchiveInfo.MaxRetention(p0))") && maxRetentionIsProduct(w))) {
 					okS = true
 				}
 			}
@@ -509,7 +519,8 @@ func rulesC19(w *World, r *Report) {
 			for _, fc := range failConditions(w, li) {
 				onlyCharGuards := true
 				for _, g := range fc.Guards {
-					if !strings.HasPrefix(strings.TrimPrefix(g, "!"), "(p0[") {
+					// guards that only look at the current character or the scan position (loop condition parts)
+					if !strings.Contains(g, "p0[") && !strings.Contains(g, "len(p0)") {
 						onlyCharGuards = false
 					}
 				}
@@ -849,4 +860,19 @@ func ruleToStdTimeUTC(w *World, r *Report, rule string) {
 		ok := len(rets) == 1 && newExprCtx(w).expr(rets[0].Results[0]) == "(time.Time).UTC(time.Unix(p0, 0))"
 		r.Check(ok, rule, "Timestamp.ToStdTime", w.pos(st.Pos()), "time.Unix(t,0).UTC()", "ToStdTime is not time.Unix(int64(t), 0).UTC(): times would be rendered in local time although the layout's zone is the literal Z")
 	}
+}
+
+// maxRetentionIsProduct: ArchiveInfo.MaxRetention returns secondsPerPoint * numberOfPoints.
+func maxRetentionIsProduct(w *World) bool {
+	f := fn(w.Lib, "ArchiveInfo.MaxRetention")
+	if f == nil {
+		return false
+	}
+	for _, rt := range returnsOf(f) {
+		e := newExprCtx(w).expr(rt.Results[0])
+		if e != "(p0.secondsPerPoint *:int32 p0.numberOfPoints)" && e != "(p0.numberOfPoints *:int32 p0.secondsPerPoint)" {
+			return false
+		}
+	}
+	return true
 }
